@@ -543,6 +543,14 @@ class PyHarness(object):
                 elif p.kind() == "nativep" and p.intent in ("out", "inout") and p.attrs.get("dimension"):
                     vals.append(("array", v))
                     outs.append((p.name, ("array", v, p.attrs["dimension"])))
+                elif p.kind() == "vector" and p.intent == "in":
+                    begin = ex_.load_ptr(v)
+                    end = ex_.load_ptr(ex_.padd(v, 8))
+                    if isinstance(begin, Ptr) and begin.obj is not None:
+                        ex_.flush(begin.obj)
+                        vals.append(("vector_in", begin, end, begin.obj.arr))
+                    else:
+                        vals.append(("vector_in", begin, end, None))
                 elif p.kind() == "nativep" and p.intent == "in" and (p.attrs.get("rank") or p.attrs.get("dimension")):
                     ebits = ir.size_of(ir.resolve(argt[k + len(vals)]).to) * 8
                     if isinstance(v, Ptr) and v.obj is not None:
@@ -636,7 +644,7 @@ class PyHarness(object):
         def accepts(sg):
             for j, p_ in enumerate(in_params(sg)[:w.total]):
                 ob = argobj.get(j)
-                if ob is None or not (p_.kind() == "nativep" and (p_.attrs.get("rank") or p_.attrs.get("dimension"))):
+                if ob is None or not (p_.kind() == "vector" or (p_.kind() == "nativep" and (p_.attrs.get("rank") or p_.attrs.get("dimension")))):
                     continue
                 info = ob.obj.tag.get("as_list")
                 if info is None:
@@ -644,7 +652,8 @@ class PyHarness(object):
                 if info == "no":
                     return False
                 kinds = [it.obj.tag["kind"] for it in info[1]]
-                okk = (0,) if p_.tname in ("int", "long", "short", "size_t", "unsigned int") else (0, 1)
+                et = p_.elem if p_.kind() == "vector" else p_.tname
+                okk = (0,) if et in ("int", "long", "short", "size_t", "unsigned int") else (0, 1)
                 if any(k_ not in okk for k_ in kinds):
                     return False
             return True
@@ -749,6 +758,30 @@ class PyHarness(object):
                                                 fail = "implied argument '%s' is not the number of items of '%s'" % (q_.name, p.name)
                                     if not fail and isinstance(ptr, Ptr) and ptr.obj is not None and ptr.obj.kind == "heap" and ptr.obj.live:
                                         fail = "the buffer converted from the list argument '%s' is never released" % p.name
+                            elif st[0] == "object" and v[0] == "vector_in":
+                                info = st[1].obj.tag.get("as_list")
+                                if not info or info == "no":
+                                    fail = "vector argument '%s' reaches the library although the Python object is not a sequence" % p.name
+                                else:
+                                    elems = info[1]
+                                    esz = wrapsym.VECTOR_ELEM.get(p.elem, 4)
+                                    begin, end, arr0 = v[1], v[2], v[3]
+                                    nbytes = 0
+                                    if isinstance(begin, Ptr) and begin.obj is not None and isinstance(end, Ptr) and end.obj is begin.obj:
+                                        nbytes = conc(z3.simplify(bv(end.off) - bv(begin.off)))
+                                    if nbytes != len(elems) * esz:
+                                        fail = "vector argument '%s' has %s bytes of elements, the list has %d items" % (p.name, nbytes, len(elems))
+                                    else:
+                                        for k_, it in enumerate(elems):
+                                            got_ = z3.Concat(*[z3.Select(arr0, bv(begin.off) + k_ * esz + b_) for b_ in range(esz - 1, -1, -1)])
+                                            if p.elem in ("double", "float"):
+                                                want_ = it.obj.tag["fval"] if it.obj.tag["kind"] == 1 else \
+                                                    self.ex.from_fp(z3.fpSignedToFP(z3.RNE(), it.obj.tag["ival"], z3.Float64()))
+                                            else:
+                                                want_ = z3.Extract(esz * 8 - 1, 0, it.obj.tag["ival"])
+                                            if want_.size() == got_.size() and e.check(got_ != want_) == "sat":
+                                                fail = "element %d of vector argument '%s' does not reach the library with the item's value" % (k_, p.name)
+                                                break
                             elif st[0] == "bool":
                                 a_ = v[1] if z3.is_bool(v[1]) else v[1] != 0
                                 if e.check(a_ != st[1]) == "sat":
@@ -942,6 +975,7 @@ def native_call(w):
                'void divmod(int a, int b, int *q, int *r) { printf("LIB %d %d\\n", a, b); *q = 11; *r = 13; }',
                'int pick(int a, int b, int c) { printf("LIB %d %d %d\\n", a, b, c); return 3; }',
                'int pick(double x) { printf("LIB %g\\n", x); return 1; }',
+               'int vsum(const std::vector<int> &v) { printf("LIB"); for (size_t i = 0; i < v.size(); i++) printf(" %d", v[i]); printf(" | %d\\n", (int) v.size()); return 17; }',
                'long isum(const int *v, int n) { printf("LIB"); for (int i = 0; i < n; i++) printf(" %d", v[i]); printf(" | %d\\n", n); return 21; }',
                'int total(const int *v, int n) { printf("LIB"); for (int i = 0; i < n; i++) printf(" %d", v[i]); printf(" | %d\\n", n); return 31; }',
                'double total(const double *v, int n) { printf("LIB"); for (int i = 0; i < n; i++) printf(" %g", v[i]); printf(" | %d\\n", n); return 4.5; }',
@@ -977,7 +1011,7 @@ def native_call(w):
 
         def sample_of(j, p):
             li = lists.get(str(j))
-            if li is None and p.kind() == "nativep" and (p.attrs.get("rank") or p.attrs.get("dimension")):
+            if li is None and (p.kind() == "vector" or (p.kind() == "nativep" and (p.attrs.get("rank") or p.attrs.get("dimension")))):
                 return "[3, 3]"          # a list-mode array argument the symbolic run never looked into
             if li is None:
                 return sample.get(p.tname, "1")
@@ -1002,7 +1036,7 @@ def native_call(w):
                         continue
                     if li == "not a sequence":
                         return False
-                    okk = ("int",) if p_.tname in ("int", "long", "short") else ("int", "float")
+                    okk = ("int",) if (p_.elem if p_.kind() == "vector" else p_.tname) in ("int", "long", "short") else ("int", "float")
                     if any(k_ not in okk for k_ in li):
                         return False
                 return True
@@ -1027,7 +1061,7 @@ def native_call(w):
             if lists:
                 li = [v_ for v_ in lists.values() if v_ != "not a sequence"][0]
                 want = [{"int": "3", "float": "2.5"}.get(k_, "?") for k_ in li] + ["|", str(len(li))]
-            elif any(p_.kind() == "nativep" and (p_.attrs.get("rank") or p_.attrs.get("dimension")) for p_ in ins[:w["supplied"]]):
+            elif any(p_.kind() == "vector" or (p_.kind() == "nativep" and (p_.attrs.get("rank") or p_.attrs.get("dimension"))) for p_ in ins[:w["supplied"]]):
                 want = ["3", "3", "|", "2"]
             if got[:len(want)] != want:
                 return "%s: the library received %r natively, the call supplies %r" % (call, got, want)
